@@ -88,7 +88,9 @@ class MergerConfig:
             self.log.debug(
                 "MergerConfig::hash_merge_mode:  Matched {}"
                 .format(merge_rule))
-            return HashMergeOpts.from_str(merge_rule)
+            rule_mode = MergerConfig._rule_mode(HashMergeOpts, merge_rule)
+            if rule_mode is not None:
+                return rule_mode
         self.log.debug("MergerConfig::hash_merge_mode:  NOT Matched")
         if hasattr(self.args, "hashes") and self.args.hashes:
             return HashMergeOpts.from_str(self.args.hashes)
@@ -113,7 +115,9 @@ class MergerConfig:
             self.log.debug(
                 "MergerConfig::array_merge_mode:  Matched {}"
                 .format(merge_rule))
-            return ArrayMergeOpts.from_str(merge_rule)
+            rule_mode = MergerConfig._rule_mode(ArrayMergeOpts, merge_rule)
+            if rule_mode is not None:
+                return rule_mode
         self.log.debug("MergerConfig::array_merge_mode:  NOT Matched")
         if hasattr(self.args, "arrays") and self.args.arrays:
             return ArrayMergeOpts.from_str(self.args.arrays)
@@ -138,7 +142,9 @@ class MergerConfig:
             self.log.debug(
                 "MergerConfig::aoh_merge_mode:  Matched {}"
                 .format(merge_rule))
-            return AoHMergeOpts.from_str(merge_rule)
+            rule_mode = MergerConfig._rule_mode(AoHMergeOpts, merge_rule)
+            if rule_mode is not None:
+                return rule_mode
         self.log.debug("MergerConfig::aoh_merge_mode:  NOT Matched")
         if hasattr(self.args, "aoh") and self.args.aoh:
             return AoHMergeOpts.from_str(self.args.aoh)
@@ -163,7 +169,9 @@ class MergerConfig:
             self.log.debug(
                 "MergerConfig::set_merge_mode:  Matched {}"
                 .format(merge_rule))
-            return SetMergeOpts.from_str(merge_rule)
+            rule_mode = MergerConfig._rule_mode(SetMergeOpts, merge_rule)
+            if rule_mode is not None:
+                return rule_mode
         self.log.debug("MergerConfig::set_merge_mode:  NOT Matched")
         if hasattr(self.args, "sets") and self.args.sets:
             return SetMergeOpts.from_str(self.args.sets)
@@ -172,6 +180,30 @@ class MergerConfig:
                 and "sets" in self.config["defaults"]):
             return SetMergeOpts.from_str(self.config["defaults"]["sets"])
         return SetMergeOpts.UNIQUE
+
+    @staticmethod
+    def _rule_mode(mode_type: Any, merge_rule: str) -> Any:
+        """
+        Get the merge mode a rule names for one kind of node.
+
+        A rule is written for the kind of node its path is expected to match.
+        When the node to merge is of another kind (an empty or plain Array
+        where an Array-of-Hashes was expected, a Hash where an Array was), the
+        rule does not apply; None is returned.  A rule which is no mode for
+        any kind of node is still an error.
+        """
+        try:
+            return mode_type.from_str(merge_rule)
+        except NameError:
+            for other_type in (
+                HashMergeOpts, ArrayMergeOpts, AoHMergeOpts, SetMergeOpts
+            ):
+                try:
+                    other_type.from_str(merge_rule)
+                    return None
+                except NameError:
+                    continue
+            raise
 
     def aoh_merge_key(
         self, node_coord: NodeCoords, data: dict
